@@ -22,6 +22,8 @@ def main():
         print("patch does not apply")
         return
     refs = equiv.load_reference_sources()
+    full = Repo("/repo", overlay=ov).equiv_stats  # also sets the purity tables
+    print("full run: proved", len(full.get("proved_equivalent", [])), "of", len(full.get("changed", [])), full.get("errors", ""))
     for rel, src in ov.items():
         tree = ast.parse(src)
         stats = {}
